@@ -123,6 +123,10 @@ fn main() {
                 Some(t) => format!("schema {}", (reg[i.parse::<usize>().unwrap()].schema)(&t)),
                 None => "badval".into(),
             }),
+            ["zcc", i] => {
+                let (z, m) = (reg[i.parse::<usize>().unwrap()].consts)();
+                Some(format!("zcc {} {}", z, m))
+            }
             ["dtype", i] => {
                 let (a, e, _) = &dnames[i.parse::<usize>().unwrap()];
                 Some(format!("dtype {} {}", if a == e { "same" } else { "differs" }, hex(a.as_bytes())))
